@@ -291,9 +291,11 @@ func c15Replay(b *c15Beh) (res c15Result) {
 		res.Viol = append(res.Viol, c15Viol{Sig: sig, Step: step, Detail: detail})
 	}
 	diverged := false
-	diverge := func(step int, what string) {
+	divClass := ""
+	diverge := func(step int, class, what string) {
 		if !diverged {
 			diverged = true
+			divClass = class
 			res.Diverged = what
 			res.DivStep = step
 		}
@@ -341,7 +343,7 @@ func c15Replay(b *c15Beh) (res c15Result) {
 	var prevRt []string
 	suffix := func() string {
 		if diverged {
-			return ""
+			return " after the implementation left the specification (" + divClass + ")"
 		}
 		return c15RouteSuffix(prevRt)
 	}
@@ -382,22 +384,53 @@ func c15Replay(b *c15Beh) (res c15Result) {
 		return
 	}
 
+	// Once the real pool has left the specification (diverged) the remaining steps are still made,
+	// as far as the caller discipline allows, with call-backs running to completion by themselves;
+	// only the property's monitors judge from there on.
+	freed := false
+	enterFree := func() {
+		freed = true
+		d.free.Store(true)
+		d.mu.Lock()
+		for _, cb := range d.cbs {
+			if cb.state != "returned" {
+				select {
+				case <-cb.gate:
+				default:
+					close(cb.gate)
+				}
+			}
+		}
+		d.mu.Unlock()
+		synctest.Wait()
+	}
+	ownOf := func(c int) string {
+		d.mu.Lock()
+		defer d.mu.Unlock()
+		return d.own[c]
+	}
 	panicked := false
 	for i := range b.Steps {
 		s := &b.Steps[i]
 		prevRt = s.Rt
+		if diverged && !freed {
+			enterFree()
+		}
 		var takeRes *c15Conn
 		var takeOK bool
 		var pv any
 		switch s.A {
 		case "Put":
+			if diverged && ownOf(s.C) == "pool" {
+				continue // the caller does not own it
+			}
 			// a distinct fake time for every Put, strictly before the earliest pending deadline
 			gap := time.Second
 			var prevTm []string
 			if i > 0 {
 				prevTm = b.Steps[i-1].Tm
 			}
-			if m, ok := armed(prevTm); ok {
+			if m, ok := armed(prevTm); ok && !diverged {
 				if room := m - now(); room/4 < gap {
 					gap = room / 4
 				}
@@ -422,6 +455,13 @@ func c15Replay(b *c15Beh) (res c15Result) {
 			pv = call(func() { _ = pool.Close() })
 		case "TimerFire":
 			dl, ok := deadline[s.E]
+			if diverged {
+				if ok && dl+time.Millisecond > now() {
+					time.Sleep(dl + time.Millisecond - now())
+				}
+				synctest.Wait()
+				break
+			}
 			if !ok {
 				res.Problem = "TimerFire of an entry without a deadline"
 				goto finish
@@ -438,47 +478,53 @@ func c15Replay(b *c15Beh) (res c15Result) {
 			}
 			time.Sleep(dl + h - now())
 			synctest.Wait()
-		case "ExpiryClose":
-			cb := findCB(s.C, "A")
-			if cb == nil {
-				diverge(i, "no expiry call-back is about to close the connection")
-				goto finish
+		case "ExpiryClose", "ExpiryRemove":
+			if diverged {
+				continue
 			}
-			release(cb)
-		case "ExpiryRemove":
-			cb := findCB(s.C, "B")
+			st := map[string]string{"ExpiryClose": "A", "ExpiryRemove": "B"}[s.A]
+			cb := findCB(s.C, st)
 			if cb == nil {
-				diverge(i, "no expiry call-back has closed the connection and is about to remove the entry")
-				goto finish
+				diverge(i, "expiry call-backs", "no expiry call-back of the connection is parked where the specification has it ("+s.A+")")
+				continue
 			}
 			release(cb)
 		case "ConnClose":
 			conns[s.C].doClose(false)
 		case "Block":
+			if diverged && ownOf(s.C) == "pool" {
+				continue
+			}
 			d.mu.Lock()
-			conns[s.C].blocked = true
-			conns[s.C].unb = make(chan struct{})
+			if !conns[s.C].blocked {
+				conns[s.C].blocked = true
+				conns[s.C].unb = make(chan struct{})
+			}
 			d.mu.Unlock()
 		case "Unblock":
 			d.mu.Lock()
-			conns[s.C].blocked = false
-			close(conns[s.C].unb)
+			if conns[s.C].blocked {
+				conns[s.C].blocked = false
+				close(conns[s.C].unb)
+			}
 			d.mu.Unlock()
 		default:
 			res.Problem = "unknown action " + s.A
 			goto finish
 		}
-		res.Steps++
+		if !diverged {
+			res.Steps++
+		}
 
 		if pv != nil {
 			panicked = true
 			viol(fmt.Sprintf("panic in %s%s", s.A, suffix()), i, fmt.Sprint(pv))
 			if s.R != "panic" {
-				diverge(i, "panic")
+				diverge(i, "panic", "panic")
 			}
 			goto finish
-		} else if s.R == "panic" {
-			diverge(i, "the specification demands a panic")
+		} else if s.R == "panic" && !diverged {
+			diverge(i, "no panic", "the specification demands a panic")
 		}
 
 		if s.A == "Take" {
@@ -519,37 +565,46 @@ func c15Replay(b *c15Beh) (res c15Result) {
 				if len(s.Rt) == 0 {
 					viol("Take result differs from the specification", i, fmt.Sprintf("got c%d, demanded c%s", got, want))
 				}
-				diverge(i, fmt.Sprintf("Take returned c%d, specification c%s", got, want))
+				diverge(i, "Take result", fmt.Sprintf("Take returned c%d, specification c%s", got, want))
 			}
 		}
 
 		oc, ol, kc, kl := observe(i)
 		if diverged {
-			goto finish
+			continue
 		}
 		// conformance with the specification's state
 		d.mu.Lock()
+		callsDiffer := ""
 		for c := 1; c <= nconn; c++ {
 			if conns[c].calls != s.Calls[c-1] {
-				d.mu.Unlock()
-				if len(s.Rt) == 0 {
-					viol("Close calls differ from the specification", i, fmt.Sprintf("c%d: %d Close calls, demanded %d", c, conns[c].calls, s.Calls[c-1]))
-				}
-				diverge(i, fmt.Sprintf("c%d: %d Close calls, specification %d", c, conns[c].calls, s.Calls[c-1]))
-				goto finish
+				callsDiffer = fmt.Sprintf("c%d: %d Close calls, specification %d", c, conns[c].calls, s.Calls[c-1])
+				break
 			}
 		}
 		d.mu.Unlock()
-		if oc != s.OC || ol != s.OL {
-			diverge(i, fmt.Sprintf("order count/len %d/%d, specification %d/%d", oc, ol, s.OC, s.OL))
-			goto finish
+		if callsDiffer != "" {
+			if len(s.Rt) == 0 {
+				viol("Close calls differ from the specification", i, callsDiffer)
+			}
+			diverge(i, "Close calls", callsDiffer)
+			continue
 		}
+		if oc != s.OC || ol != s.OL {
+			diverge(i, "list counts", fmt.Sprintf("order count/len %d/%d, specification %d/%d", oc, ol, s.OC, s.OL))
+			continue
+		}
+		keysDiffer := false
 		for k := 1; k <= nkeys; k++ {
 			c1, in := kc[k]
 			if in != s.Kin[k-1] || (in && (c1 != s.KC[k-1] || kl[k] != s.KL[k-1])) {
-				diverge(i, fmt.Sprintf("key %d present=%v count/len %d/%d, specification %v %d/%d", k, in, c1, kl[k], s.Kin[k-1], s.KC[k-1], s.KL[k-1]))
-				goto finish
+				diverge(i, "list counts", fmt.Sprintf("key %d present=%v count/len %d/%d, specification %v %d/%d", k, in, c1, kl[k], s.Kin[k-1], s.KC[k-1], s.KL[k-1]))
+				keysDiffer = true
+				break
 			}
+		}
+		if keysDiffer {
+			continue
 		}
 		{
 			wantA, wantB := 0, 0
@@ -562,28 +617,86 @@ func c15Replay(b *c15Beh) (res c15Result) {
 				}
 			}
 			if a, bb := cbCount("A"), cbCount("B"); a != wantA || bb != wantB {
-				diverge(i, fmt.Sprintf("%d call-backs about to close and %d about to remove, specification %d and %d", a, bb, wantA, wantB))
-				goto finish
+				diverge(i, "expiry call-backs", fmt.Sprintf("%d call-backs about to close and %d about to remove, specification %d and %d", a, bb, wantA, wantB))
+				continue
 			}
 		}
 	}
 
 finish:
-	// run everything to completion: no more parking, close the pool, let every timer fire
-	d.free.Store(true)
-	d.mu.Lock()
-	for _, cb := range d.cbs {
-		if cb.state != "returned" {
-			select {
-			case <-cb.gate:
-			default:
-				close(cb.gate)
+	last := len(b.Steps) - 1
+	// Enabledness: let time pass.  Exactly the timers the specification has armed (or fired and not yet
+	// closing) may produce a call-back; one that fires although the specification has it stopped is a timer
+	// the real pool failed to stop.
+	if !diverged && !panicked && res.Problem == "" && b.Exp && last >= 0 {
+		connOf := map[int]int{}
+		for i := range b.Steps {
+			if b.Steps[i].A == "Put" && b.Steps[i].E > 0 {
+				connOf[b.Steps[i].E] = b.Steps[i].C
+			}
+		}
+		want := map[int]int{}
+		for e, t := range b.Steps[last].Tm {
+			if t == "armed" || t == "firedClosing" {
+				want[connOf[e+1]]++
+			}
+		}
+		time.Sleep(3 * c15Expiration)
+		synctest.Wait()
+		got := map[int]int{}
+		d.mu.Lock()
+		for _, cb := range d.cbs {
+			if cb.state == "A" {
+				got[cb.conn.id]++
+			}
+		}
+		d.mu.Unlock()
+		if fmt.Sprint(got) != fmt.Sprint(want) {
+			diverge(last, "pending timers", fmt.Sprintf("when time passes, expiry call-backs start for connections %v; the specification has timers pending for %v", got, want))
+		}
+	}
+	// Past a divergence the specification has nothing more to say; the director goes on with calls of
+	// its own and the bounds are probed directly: a fresh connection is put under every key (so that
+	// the lists exist), pending call-backs run to completion, then fresh connections are put until
+	// every bound would have to evict.
+	{
+		next := nconn
+		probePut := func(k int) {
+			next++
+			c := &c15Conn{d: d, id: next, closedCh: make(chan struct{})}
+			conns[next] = c
+			d.mu.Lock()
+			d.own[next] = "pool"
+			d.mu.Unlock()
+			time.Sleep(time.Second)
+			synctest.Wait()
+			if pv := call(func() { pool.Put(k, c) }); pv != nil {
+				viol("panic in Put"+suffix(), -1, fmt.Sprint(pv))
+				panicked = true
+				return
+			}
+			observe(-1)
+		}
+		probing := diverged && !panicked && res.Problem == ""
+		if probing && !freed {
+			for k := 1; k <= nkeys && !panicked; k++ {
+				probePut(k)
+			}
+		}
+		// run everything to completion: no more parking
+		enterFree()
+		if probing {
+			m := b.Kcap
+			if b.Cap > m {
+				m = b.Cap
+			}
+			for k := 1; k <= nkeys; k++ {
+				for j := 0; j < m+2 && !panicked; j++ {
+					probePut(k)
+				}
 			}
 		}
 	}
-	d.mu.Unlock()
-	synctest.Wait()
-	last := len(b.Steps) - 1
 	if pv := call(func() { _ = pool.Close() }); pv != nil && !panicked {
 		viol("panic in PoolClose"+suffix(), last, fmt.Sprint(pv))
 		panicked = true
@@ -594,9 +707,9 @@ finish:
 	if !panicked && res.Problem == "" {
 		d.mu.Lock()
 		leaked := []string{}
-		for c := 1; c <= nconn; c++ {
-			if d.own[c] == "pool" && !conns[c].isClosed {
-				leaked = append(leaked, conns[c].String())
+		for id, c := range conns {
+			if d.own[id] == "pool" && !c.isClosed {
+				leaked = append(leaked, c.String())
 			}
 		}
 		d.mu.Unlock()
@@ -605,7 +718,7 @@ finish:
 			viol("connection neither handed out nor closed"+suffix(), -1, strings.Join(leaked, ","))
 		}
 		if !diverged && b.Term && (len(leaked) > 0) != (len(b.Leaked) > 0) {
-			diverge(last, fmt.Sprintf("leaked %v, specification %v", leaked, b.Leaked))
+			diverge(last, "final ownership", fmt.Sprintf("leaked %v, specification %v", leaked, b.Leaked))
 		}
 	}
 	return res
